@@ -316,6 +316,8 @@ def run(ctx, rep):
                  "a waiter that saw 'not ready' calls self._conn.serve() next; if another thread publishes the reply in between and "
                  "drops the connection the waiter fails with AttributeError instead of getting its reply")
     _close_only_on_eof(ctx, rep)
+    rep.rule("R13.13", "every request has a result object of its own, which is what the pending table holds (= R01.4)")
+    K.share(ctx, rep, "c01", lambda o: o.rule == "R01.4" and ("sync_request" in o.key or "callback registered" in o.key), "R13.13", floor=2)
     rep.rule("R13.12", "completion callbacks: each runs exactly once even when its registration races with the delivery (= R15.3)")
     K.share(ctx, rep, "c15", lambda o: o.rule == "R15.3" and "callbacks run exactly once" in o.key, "R13.12", floor=1)
 
